@@ -216,7 +216,7 @@ impl FrameCodec {
 //@@ spec
     ensures
         old(src)@.len() < 4 ==> r is Err,                                                   // [C15.sasl-frame.short] [C19.sasl-frame.short] a SASL frame body shorter than the rest of the header is an error, not a panic (pre-authentication path)
-        old(src)@.len() >= 4 && (old(src)@[1] != FRAME_TYPE_SASL || old(src)@[0] < 2) ==> r is Err,   // [C19.sasl-frame.type] an AMQP frame (or any other type / data offset) during the SASL exchange is refused [C15.sasl-frame.type]
+        old(src)@.len() >= 4 && (old(src)@[1] != FRAME_TYPE_SASL || old(src)@[0] != 2) ==> r is Err,   // [C19.sasl-frame.type] an AMQP frame (or any other type / data offset) during the SASL exchange is refused [C15.sasl-frame.type]
         r is Ok && old(src)@[0] == 2 ==> r->Ok_0 == Some(sasl_of(old(src)@.skip(4))),
 //@@ entry
         let ghost s0 = src@;
